@@ -29,6 +29,9 @@ class GatedProcess(_FORK.Process):
     def __init__(self, *a, **kw):
         super().__init__(*a, **kw)
         self.gate_r, self.gate_w = os.pipe()
+        # which future this worker serves (for observers that cannot rely on the executor's private tables)
+        inner = kw.get('kwargs') or {}
+        self.lv_future_id = inner.get('future_id', next((v for v in inner.values() if isinstance(v, int) and not isinstance(v, bool)), None))
 
     def start(self):
         super().start()
@@ -95,6 +98,20 @@ class Script:
 SCRIPT = None
 
 
+_FUTURE_RESULT = P.Future.result
+
+
+def _outcome(f):
+    """1: the finished future holds a result, 2: an exception."""
+    if hasattr(f, '_ex'):
+        return 2 if f._ex is not None else 1
+    try:
+        _FUTURE_RESULT(f)        # the method as imported: the tick instrumentation of intr_h replaces it on the class
+        return 1
+    except BaseException:   # noqa
+        return 2
+
+
 class ScriptedExecutor(P.ProcessExecutor):
 
     def __init__(self, *a, **kw):
@@ -107,15 +124,35 @@ class ScriptedExecutor(P.ProcessExecutor):
             SCRIPT.base = future.id
         return future.id - SCRIPT.base
 
+    # The executor's own tables when they have the names and shapes this harness knows; otherwise the same information
+    # reconstructed from what passed through the public calls: futures returned by submit(), worker objects created.
+    def _running_pairs(self):
+        d = None if os.environ.get('LV_FORCE_RECON') else getattr(self, '_running_id_to_future_and_process', None)
+        if isinstance(d, dict):
+            try:
+                return [(v[0], v[1]) for v in d.values()]
+            except (TypeError, IndexError):
+                pass
+        by_id = {f.id: f for f in SCRIPT.created}
+        return [(by_id[p.lv_future_id], p) for p in GatedProcess.started
+                if p.lv_future_id in by_id and not by_id[p.lv_future_id].done]
+
+    def _pending_futures(self):
+        d = None if os.environ.get('LV_FORCE_RECON') else getattr(self, '_pending_future_to_thunk', None)
+        if isinstance(d, dict):
+            return list(d)
+        started = {p.lv_future_id for p in GatedProcess.started}
+        return [f for f in SCRIPT.created if not f.done and f.id not in started]
+
     def _obs(self):
-        running = [self._fid(f) for f, _ in self._running_id_to_future_and_process.values()]
-        pendq = [self._fid(f) for f in self._pending_future_to_thunk]
+        running = [self._fid(f) for f, _ in self._running_pairs()]
+        pendq = [self._fid(f) for f in self._pending_futures()]
         done = []
         for f in SCRIPT.created:
             if f.done:
-                st = 0 if f.cancelled else (2 if f._ex is not None else 1)
+                st = 0 if f.cancelled else _outcome(f)
                 done.append([self._fid(f), st])
-        alive = sum(1 for _, p in self._running_id_to_future_and_process.values() if p.is_alive())
+        alive = sum(1 for _, p in self._running_pairs() if p.is_alive())
         SCRIPT.max_running_seen = max(SCRIPT.max_running_seen, len(running))
         limit = SCRIPT.expected_maxw if getattr(SCRIPT, 'expected_maxw', None) is not None else self.max_workers
         if len(running) > limit:
@@ -136,7 +173,7 @@ class ScriptedExecutor(P.ProcessExecutor):
 
     def wait(self, futures, *, timeout_seconds):
         envs = []
-        running = list(self._running_id_to_future_and_process.values())
+        running = self._running_pairs()
         alive = [(f, p) for f, p in running if p.is_alive()]
         rng = SCRIPT.rng
         if SCRIPT.forced is not None:
@@ -157,7 +194,7 @@ class ScriptedExecutor(P.ProcessExecutor):
                 else:
                     p.release_and_join()
                     envs.append(['finish', self._fid(f)])
-        had_dead = [self._fid(f) for f, p in self._running_id_to_future_and_process.values() if not p.is_alive()]
+        had_dead = [self._fid(f) for f, p in self._running_pairs() if not p.is_alive()]
         res = super().wait(futures, timeout_seconds=0.005)
         obs = self._obs()
         # C11/C05: every worker that was dead when wait() began has been noticed and its slot freed
@@ -180,7 +217,7 @@ class ScriptedExecutor(P.ProcessExecutor):
         SCRIPT.ops.append(['cancel', [], self._obs()])
 
     def stop(self):
-        SCRIPT.terminated_fids += [self._fid(f) for f, _ in self._running_id_to_future_and_process.values()]
+        SCRIPT.terminated_fids += [self._fid(f) for f, _ in self._running_pairs()]
         super().stop()
         SCRIPT.ops.append(['stop', [], self._obs()])
 
